@@ -72,7 +72,9 @@ def tcpcLine (inp obs : List String) : Bool × Bool × String × String :=
   if obs == ["unreliable"] then (true, true, "-", "skipped") else
   let splitSemi := fun (l : List String) =>
     l.foldr (fun t acc => if t == ";" then [] :: acc else match acc with | [] => [[t]] | x :: xs => (t :: x) :: xs) ([[]] : List (List String))
-  match splitSemi inp, splitSemi obs with
+  -- (an optional fifth token says whether the candidates were handed over directly or came from the resolver: the same to the model)
+  let inp' := match splitSemi inp with | (t :: conc :: ct :: b6 :: _via :: []) :: cands => [t, conc, ct, b6] :: cands | x => x
+  match inp', splitSemi obs with
   | [t, conc, ct, b6] :: cands, [[k, w, el], accepted] =>
     let kinds := cands.filterMap List.head?
     let n := kinds.length
@@ -117,6 +119,8 @@ def tcpcLine (inp obs : List String) : Bool × Bool × String × String :=
     let orderOnly := optTok conc == some 1 && !kinds.contains "hang"
     let cls : List String :=
       (if !outcomeOk then ["C10/tcp-wrong-outcome"] else []) ++
+      -- the overall deadline is due and the run is not over (or ends later, some other way)
+      (match m.1 with | .timeout tm => if k != "timeout" && !(natTok el ≤ tm + 70 && k != "hang") then ["C11/tcp-deadline-not-enforced"] else [] | _ => []) ++
       (if !outcomeOk && orderOnly then ["C16/tcp-attempts-not-in-sorted-order"] else []) ++
       (if outcomeOk && !timeOk then ["C11/tcp-pacing-or-deadline"] else []) ++
       (if extra then ["C11/tcp-candidate-started-out-of-turn"] else [])
